@@ -384,6 +384,40 @@ theorem T_C04_shared_exact_count_kinds (g : Geo) (hk : countKindsB g = true) (hl
     ∀ d ∈ specOf st w, ∃ (c : Chop) (k : Nat), d = flipN k (secOn (toInp g) w c) :=
   T_C04_shared_exact_partial (toInp g) (T_C04_uniform_count_kinds g hk hl) st h w
 
+/-- every user chop keeps the cell-to-cell ratio when copied, has a valid length ratio, and its axis-level calculation
+    has returned a count and a positive ratio (any kind: `count + total_expansion` with its validated root,
+    `start_size + c2c_expansion` with the searched count, …) -/
+def C2cResolved (g : Geo) : Prop :=
+  ∀ id u, g.uchops[id]? = some u → u.preserve = .c2c ∧ 0 < u.ratio ∧ u.ratio ≤ 1 ∧
+    ∃ res n c, resolved g id = .ok res ∧ res.count = some n ∧ 1 ≤ n ∧ res.c2c = some c ∧ 0 < c
+
+/-- the general form: for *every* chop kind whose copies preserve the cell-to-cell ratio, once the axis-level
+    calculations have returned, all wire evaluations on positive lengths succeed and the expansion does not depend on
+    the wire -/
+theorem T_C04_uniform_c2c_preserving (g : Geo) (hk : C2cResolved g) (hl : ∀ w, 0 < g.len w) : Uniform (toInp g) := by
+  intro id inv w w'
+  rw [toInp_ev]
+  cases hu : g.uchops[id]? with
+  | none => unfold evG wireVals; rw [hu]
+  | some u =>
+    obtain ⟨hp, h0, h1, res, n, c, hres, hc, hn, hcc, hc0⟩ := hk id u hu
+    obtain ⟨v, hv1⟩ := wireVals_c2c_total hl hu hp h0 h1 hres hc hn hcc hc0 inv w
+    obtain ⟨v', hv2⟩ := wireVals_c2c_total hl hu hp h0 h1 hres hc hn hcc hc0 inv w'
+    exact T_C04_c2c_same_on_all_wires g id u res n c hu hp hres hc hn hcc (ne_of_gt hc0) inv w w' v v' hv1 hv2
+
+/-- and the exact sections statement for them -/
+theorem T_C04_shared_exact_c2c_preserving (g : Geo) (hk : C2cResolved g) (hl : ∀ w, 0 < g.len w) (st : St)
+    (h : run (toInp g) = .ok st) (w : Nat) :
+    ∀ d ∈ specOf st w, ∃ (c : Chop) (k : Nat), d = flipN k (secOn (toInp g) w c) :=
+  T_C04_shared_exact_partial (toInp g) (T_C04_uniform_c2c_preserving g hk hl) st h w
+
+/-- the count-based kinds are an instance, with nothing to assume about the calculation -/
+theorem T_C04_count_kinds_resolved (g : Geo) (hk : countKindsB g = true) (hl : ∀ w, 0 < g.len w) : C2cResolved g := by
+  intro id u hu
+  obtain ⟨hp, h0, h1, n, r, hn, hr, hv⟩ := countKinds_of hk hu
+  obtain ⟨res, hres, hc, hcc⟩ := resolved_count_kind hl hu h0 h1 hn hr hv
+  exact ⟨hp, h0, h1, res, n, r, hres, hc, hn, hcc, hr⟩
+
 end CBV.Prop
 
 namespace CBV.Prop.Examples
@@ -507,5 +541,10 @@ example : ∀ w, 0 < twoBoxesC.len w := by
 example : (match run (toInp twoBoxesC) with
     | .ok st => (specOf st 17).map (·.exp) ++ (specOf st 16).map (·.exp)
     | .error _ => []) = [1296 / 625, 1296 / 625] := by decide +kernel
+
+/-- non-vacuity of `T_C04_uniform_c2c_preserving`: `twoBoxesC` satisfies `C2cResolved` -/
+example : C2cResolved twoBoxesC :=
+  T_C04_count_kinds_resolved twoBoxesC (by decide +kernel)
+    (by intro w; unfold twoBoxesC; simp only; split <;> norm_num)
 
 end CBV.Prop.Examples
